@@ -145,9 +145,20 @@ func ZZ_C11_edsFaults() {
 // failed read must not stick.
 func ZZ_C11_readFaults() {
 	one := intstr.FromInt(1)
+	// the share may be a percentage of the nodes the ExtendedDaemonSet targets (50% of node0, node1), next to
+	// nodes it does not target (tainted): no failed read may make it a share of something else
+	percent := nondet.Bool("replicasAsPercentage")
+	if percent {
+		one = intstr.FromString("50%")
+	}
 	canary := &datadoghqv1alpha1.ExtendedDaemonSetSpecStrategyCanary{Replicas: &one, Duration: &metav1.Duration{Duration: time.Hour}}
 	ds := zzEDS("ns", "foo", "B", canary)
 	c := fakeapi.New()
+	if percent {
+		for _, name := range []string{"tainted0", "tainted1"} {
+			c.Nodes = append(c.Nodes, &corev1.Node{ObjectMeta: metav1.ObjectMeta{Name: name}, Spec: corev1.NodeSpec{Taints: []corev1.Taint{{Key: "dedicated", Value: "db", Effect: corev1.TaintEffectNoSchedule}}}})
+		}
+	}
 	rsA := zzRS(ds, "A", "foo-a", nondet.Base().Add(-24*time.Hour))
 	rsA.Status.Desired, rsA.Status.Current, rsA.Status.Ready, rsA.Status.Available = 2, 2, 2, 2
 	rsB := zzRS(ds, "B", "foo-b", nondet.Base().Add(-time.Minute))
